@@ -200,7 +200,38 @@ def gen_alleles(rng, exotic):
     return ref, other[:rng.choice([2, 2, 3])]
 
 
-def gen_case(rng, scale=1, exotic=True, max_records=14):
+HEADER_PARTS = ("phasing", "PS", "HP", "PQ")
+
+
+def gen_profile(rng):
+    """what the records of a file use, drawn independently of what its header declares:
+    `tags` = the phase tags that may occur in FORMAT (all three / none / a random subset), `gt` = how genotypes are written
+    (mixed separators / every genotype phased with `|` as population phasers write them / nothing phased, alleles in any order)"""
+    tags = rng.choice([list(PHASE_TAGS)] * 3 + [[]] * 3 + [[t for t in PHASE_TAGS if rng.random() < 0.5] for _ in range(2)])
+    return {"tags": tags, "gt": rng.choice(["mixed", "mixed", "mixed", "phased", "phased", "unphased", "unphased"])}
+
+
+def gen_subset(rng):
+    """a subset of {##phasing line, PS definition, HP definition, PQ definition}: every subset has positive probability, the
+    empty one (a header that says nothing about phasing) and the full one are over-weighted"""
+    x = rng.random()
+    if x < 0.3:
+        return []
+    if x < 0.4:
+        return list(HEADER_PARTS)
+    return [p for p in HEADER_PARTS if rng.random() < 0.5]
+
+
+def gen_case(rng, scale=1, exotic=True, max_records=14, profile=None, subset="random"):
+    """`profile` (see gen_profile; None = the historical mix: every tag with 35 %, half of the genotypes phased) and `subset`
+    (a list out of HEADER_PARTS = exactly these phase-related header lines are present, whatever the records use; None = the
+    historical headers, which declare every tag that is used; "random" = one or the other) are independent of each other"""
+    if profile is None and rng.random() < 0.6:
+        profile = gen_profile(rng)
+    if subset == "random":
+        subset = gen_subset(rng) if rng.random() < 0.55 else None
+    tags_used = list(PHASE_TAGS) if profile is None else profile["tags"]
+    p_phased = {"mixed": 0.5, "phased": 0.97, "unphased": 0.0}[profile["gt"] if profile else "mixed"]
     n_contigs = rng.choice([1, 1, 2, 3])
     contigs = {f"chr{i + 1}": rng.randrange(2000, 9000) for i in range(n_contigs)}
     n_samples = rng.choice([1, 1, 2, 2, 3, 4]) if rng.random() > 0.04 else 0
@@ -221,7 +252,7 @@ def gen_case(rng, scale=1, exotic=True, max_records=14):
             if not samples:
                 records.append({"fixed": fixed, "format": None, "calls": []})
                 continue
-            others = [k for k in ["DP", "GQ", "AD", "FT", "PS", "PQ", "HP"] if rng.random() < 0.35]
+            others = [k for k in ["DP", "GQ", "AD", "FT", "PS", "PQ", "HP"] if rng.random() < 0.35 and (k not in PHASE_TAGS or k in tags_used)]
             rng.shuffle(others)
             no_gt = exotic and rng.random() < 0.07
             if no_gt and not others:
@@ -232,7 +263,7 @@ def gen_case(rng, scale=1, exotic=True, max_records=14):
                 vals, ploidy = [], 2
                 for k in fmt:
                     if k == "GT":
-                        g, ploidy = gen_gt(rng, len(alts), exotic)
+                        g, ploidy = gen_gt(rng, len(alts), exotic, p_phased=p_phased)
                         vals.append(g)
                     else:
                         vals.append(gen_value(rng, k, len(alts), ploidy, pos))
@@ -245,16 +276,30 @@ def gen_case(rng, scale=1, exotic=True, max_records=14):
     if phasing and second:      # F61 (= F76, fixed in /repo 3f23520): several ##phasing lines
         phasing = 2
     case = {"contigs": contigs, "samples": samples, "phasing_header": phasing, "records": records,
-            "exotic": exotic}
-    if exotic and rng.random() < 0.6:
+            "exotic": exotic, "profile": profile}
+    if subset is not None:
+        # the header is drawn independently of the records: a used tag may be undeclared (htslib accepts that with a warning
+        # and treats the field as a string), an unused one declared; phased genotypes need no header line at all
+        case["phase_header"] = sorted(subset)
+        case["header_lines"] = gen_header(rng, case, subset=subset, shuffle=exotic)
+        if rng.random() < 0.5:
+            # the same records under another header: the records of the output must not depend on it
+            other = gen_subset(rng)
+            if sorted(other) == sorted(subset):
+                other = [p for p in HEADER_PARTS if p not in subset]
+            case["twin_phase_header"] = sorted(other)
+            case["twin_header_lines"] = gen_header(rng, case, subset=other, shuffle=exotic)
+    elif exotic and rng.random() < 0.6:
         case["header_lines"] = gen_header(rng, case)
     case["input"] = rng.choice(["path", "path", "stdin", "gz"]) if exotic else "path"
     return case
 
 
-def gen_header(rng, case):
+def gen_header(rng, case, subset=None, shuffle=True):
     """header variants `unphase_header` has to cope with: 0-3 `##phasing` lines anywhere, a `##PHASING` line, INFO fields
-    named like the phase tags, definitions of unused phase tags left out, other generic lines"""
+    named like the phase tags, definitions of unused phase tags left out, other generic lines.
+    With `subset` (a list out of HEADER_PARTS): the definition of PS / HP / PQ is present iff named, `##phasing` lines (1-3)
+    iff "phasing" is named — no matter what the records use; `shuffle=False` keeps the conventional order of lines."""
     used = {k for r in case["records"] for k in (r["format"] or [])}
     lines = ["##fileformat=VCFv4.2", '##FILTER=<ID=PASS,Description="All filters passed">',
              '##FILTER=<ID=q10,Description="Quality below 10">']
@@ -262,7 +307,10 @@ def gen_header(rng, case):
         lines.append(f"##contig=<ID={n},length={ln}>")
     body = []
     for k, d in FORMAT_DEFS.items():
-        if k in used or k not in PHASE_TAGS or rng.random() < 0.5:
+        if subset is not None and k in PHASE_TAGS:
+            if k in subset:
+                body.append(d)
+        elif k in used or k not in PHASE_TAGS or rng.random() < 0.5:
             body.append(d)
     body += INFO_DEFS
     if rng.random() < 0.3:
@@ -275,8 +323,10 @@ def gen_header(rng, case):
         body.append("##reference=file:///ref.fa")
     if rng.random() < 0.2:
         body.append("##PHASING=upper-case-key")
-    rng.shuffle(body)
-    for i in range(rng.choice([0, 1, 1, 2, 2, 3])):
+    if shuffle:
+        rng.shuffle(body)
+    n_phasing = rng.choice([0, 1, 1, 2, 2, 3]) if subset is None else (rng.choice([1, 1, 1, 2, 3]) if "phasing" in subset else 0)
+    for i in range(n_phasing):
         body.insert(rng.randrange(len(body) + 1), "##phasing=" + rng.choice(["partial", "none", "whatshap", "partial"]) + ("" if rng.random() < 0.5 else str(i)))
     return lines + body
 
@@ -328,8 +378,12 @@ def edit_case(rng, case):
         r["format"], r["calls"] = keep, calls
     used = {k for r in out["records"] for k in (r["format"] or [])}
     header = [l for l in header if not (l.startswith("##phasing=") and rng.random() < 0.5)]
+    # definitions of the phase tags come and go as well, used or not (an undeclared key is accepted by htslib)
+    loose = rng.random() < 0.4
+    if loose:
+        header = [l for l in header if not (any(l.startswith(f"##FORMAT=<ID={t},") for t in PHASE_TAGS) and rng.random() < 0.5)]
     for t in PHASE_TAGS:
-        if t in used and not any(l.startswith(f"##FORMAT=<ID={t},") for l in header):
+        if t in used and not any(l.startswith(f"##FORMAT=<ID={t},") for l in header) and not (loose and rng.random() < 0.6):
             header.append(FORMAT_DEFS[t])
     if rng.random() < 0.3:
         header.insert(rng.randrange(1, len(header) + 1), "##phasing=edited")
